@@ -286,8 +286,18 @@ func c03Apply(root interface{}, m c03Mut) interface{} {
 		// template cycle: cyc -> cyc2 -> cyc, referenced from the chosen place
 		if top, ok := root.(map[string]interface{}); ok {
 			if td, ok := top["transform_declarations"].(map[string]interface{}); ok {
-				td["cyc"] = map[string]interface{}{"object": map[string]interface{}{"x": map[string]interface{}{"template": "cyc2"}}}
-				td["cyc2"] = map[string]interface{}{"array": []interface{}{map[string]interface{}{"template": "cyc"}}}
+				switch m.Arg % 4 {
+				case 0: // through object and array
+					td["cyc"] = map[string]interface{}{"object": map[string]interface{}{"x": map[string]interface{}{"template": "cyc2"}}}
+					td["cyc2"] = map[string]interface{}{"array": []interface{}{map[string]interface{}{"template": "cyc"}}}
+				case 1: // through an xpath_dynamic edge
+					td["cyc"] = map[string]interface{}{"xpath_dynamic": map[string]interface{}{"template": "cyc"}}
+				case 2: // xpath_dynamic -> custom_func argument -> back
+					td["cyc"] = map[string]interface{}{"xpath_dynamic": map[string]interface{}{"template": "cyc2"}}
+					td["cyc2"] = map[string]interface{}{"custom_func": map[string]interface{}{"name": "concat", "args": []interface{}{map[string]interface{}{"template": "cyc"}}}}
+				default: // self reference through a custom_func argument
+					td["cyc"] = map[string]interface{}{"custom_func": map[string]interface{}{"name": "upper", "args": []interface{}{map[string]interface{}{"template": "cyc"}}}}
+				}
 				if _, isMap := cur.(map[string]interface{}); isMap && len(p) > 1 {
 					return c03Set(root, p, map[string]interface{}{"template": "cyc"}, false)
 				}
